@@ -219,6 +219,17 @@ DEC_HEADER = HEADER + 'Definition Dn_ (neg : bool) (i f : string) : decn := {| d
     'Definition S_ (b : bytes) := string_of_list_ascii b.\n'
 
 
+def repr_dec(v: float) -> str:
+    """Coq decn for the decimal that repr(v) shows (any finite float)"""
+    t = format(Decimal(repr(v)), "f")
+    if "." not in t:
+        t += ".0"
+    neg, ip, fp = dec_parts(t)
+    if v == 0:
+        neg = str(v).startswith("-")
+    return f'(Dn_ {"true" if neg else "false"} "{ip}" "{fp}")'
+
+
 def float_bias(text: str) -> str:
     """sign of (binary double nearest to the literal) - (the literal), as a Coq comparison"""
     d = abs(Decimal(text))            # rounding acts on the magnitude (the sign is printed separately)
